@@ -1,5 +1,11 @@
 import SST.Drv.Rio
+import SST.Drv.Sst
+import SST.Drv.DB
 import SST.Drv.SkipPq
+import SST.Drv.Merge
+import SST.Drv.MemStore
+import SST.Drv.Kaitai
+import SST.Drv.Wal
 open SST SST.Drv
 
 def handle (line : String) : String :=
@@ -14,6 +20,16 @@ def handle (line : String) : String :=
     | "rio.seeknext" => rioSeekNext a
     | "skip.run" => skipRun a
     | "pq.run" => pqRun a
+    | "merge.super" => mergeSuper a
+    | "merge.run" => mergeRun a
+    | "db.run" => dbRun a
+    | "mem.run" => memRun a
+    | "sst.write" => sstWrite a
+    | "sst.read" => sstRead a
+    | "kaitai.parse" => kaitaiParseCmd a
+    | "kaitai.enum" => kaitaiEnumCmd a
+    | "wal.run" => walRun a
+    | "wal.cuts" => walCuts a
     | "ping" => "pong"
     | _ => "bad-op"
 
